@@ -302,6 +302,11 @@ structure WFp (p : Proc) : Prop where
   entries : ∀ j ∈ p.running, (p.infos.get? j).isSome = true
 
 open Supv.Proc in
+/-- every process status reachable in the process model is well-formed (`Rel` is the C11 invariant) -/
+theorem WFp.of_rel {p : Proc} {V : Nat → Supv.Spec.C11.View} (h : Rel p V) : WFp p :=
+  ⟨h.nodup, fun j hj => by obtain ⟨v, hv, _⟩ := h.listedOk j hj; simp [hv]⟩
+
+open Supv.Proc in
 theorem updateStatus_stopped (p : Proc) (i : Nat) (s : PState) (hs : s.isStopped = true)
     (hinfo : ∀ j ∈ p.running, (p.infos.get? j).isSome = true) (hne : p.infos ≠ []) :
     ∃ p', updateStatus p i s = .ok p' ∧ p'.running = p.running.erase i ∧ p'.infos = p.infos := by
